@@ -757,11 +757,42 @@ func (s *State) Apply(args []string) resp.Value {
 
 	// ---------------- sorted sets ----------------
 	case "ZADD":
-		if len(a) < 3 || len(a)%2 != 1 {
+		var nx, xx, gt, lt, ch, incr bool
+		i := 1
+	zaddOpts:
+		for ; i < len(a); i++ {
+			switch strings.ToUpper(a[i]) {
+			case "NX":
+				nx = true
+			case "XX":
+				xx = true
+			case "GT":
+				gt = true
+			case "LT":
+				lt = true
+			case "CH":
+				ch = true
+			case "INCR":
+				incr = true
+			default:
+				break zaddOpts
+			}
+		}
+		pairs := a[min(i, len(a)):]
+		if len(a) < 3 || len(pairs) == 0 || len(pairs)%2 != 0 {
 			return errArgs
 		}
-		for i := 1; i < len(a); i += 2 {
-			if f, err := strconv.ParseFloat(a[i], 64); err != nil || math.IsNaN(f) {
+		if nx && xx {
+			return resp.E("ERR XX and NX options at the same time are not compatible")
+		}
+		if (gt && lt) || (gt && nx) || (lt && nx) {
+			return resp.E("ERR GT, LT, and/or NX options at the same time are not compatible")
+		}
+		if incr && len(pairs) != 2 {
+			return resp.E("ERR INCR option supports a single increment-element pair")
+		}
+		for j := 0; j < len(pairs); j += 2 {
+			if f, err := strconv.ParseFloat(pairs[j], 64); err != nil || math.IsNaN(f) {
 				return resp.E("ERR value is not a valid float")
 			}
 		}
@@ -771,17 +802,49 @@ func (s *State) Apply(args []string) resp.Value {
 		}
 		if !ex {
 			e = &Entry{Type: "zset", ZSet: map[string]float64{}}
+		}
+		added, changed := int64(0), int64(0)
+		var incrReply *resp.Value
+		for j := 0; j < len(pairs); j += 2 {
+			f, _ := strconv.ParseFloat(pairs[j], 64)
+			cur, had := e.ZSet[pairs[j+1]]
+			if incr {
+				nv := resp.Nil()
+				incrReply = &nv
+			}
+			if (had && nx) || (!had && xx) {
+				continue
+			}
+			if incr && had {
+				f += cur
+				if math.IsNaN(f) {
+					return resp.E("ERR resulting score is not a number (NaN)")
+				}
+			}
+			if had && ((gt && f <= cur) || (lt && f >= cur)) {
+				continue
+			}
+			if !had {
+				added++
+			} else if f != cur {
+				changed++
+			}
+			e.ZSet[pairs[j+1]] = f
+			if incr {
+				nv := resp.B(FmtScore(f))
+				incrReply = &nv
+			}
+		}
+		if !ex && len(e.ZSet) > 0 {
 			s.Keys[a[0]] = e
 		}
-		n := int64(0)
-		for i := 1; i < len(a); i += 2 {
-			f, _ := strconv.ParseFloat(a[i], 64)
-			if _, had := e.ZSet[a[i+1]]; !had {
-				n++
-			}
-			e.ZSet[a[i+1]] = f
+		if incrReply != nil {
+			return *incrReply
 		}
-		return resp.I(n)
+		if ch {
+			return resp.I(added + changed)
+		}
+		return resp.I(added)
 	case "ZINCRBY":
 		if !need(3) {
 			return errArgs
